@@ -5,6 +5,7 @@ import (
 	"encoding/base64"
 	"fmt"
 	"net/url"
+	"strings"
 
 	"github.com/beevik/etree"
 
@@ -82,6 +83,62 @@ func (sp *ServiceProvider) ValidatePostSignature(authRequest string) error {
 	}
 
 	return signature.ValidatePost(certs, doc.Root())
+}
+
+// ValidateRedirectSignatureOfQuery validates the signature of a HTTP-Redirect binding request over the octets of the
+// query string as they were sent (SAML bindings 3.4.4.1), so that the percent-encoding style of the sender does not matter.
+// The decoded values the caller acts on have to be the ones found in the query string.
+func (sp *ServiceProvider) ValidateRedirectSignatureOfQuery(rawQuery, request, relayState, sigAlg, expectedSig string) error {
+	if sp.signerPublicKey == nil {
+		return fmt.Errorf("error can not validate signature if no certificate is present for this service provider")
+	}
+
+	rawRequest, ok := rawQueryValue(rawQuery, "SAMLRequest")
+	if !ok || !rawQueryValueEquals(rawRequest, request) {
+		return fmt.Errorf("request is not part of the query string")
+	}
+	rawSigAlg, ok := rawQueryValue(rawQuery, "SigAlg")
+	if !ok || !rawQueryValueEquals(rawSigAlg, sigAlg) {
+		return fmt.Errorf("signature algorithm is not part of the query string")
+	}
+	rawSig, ok := rawQueryValue(rawQuery, "Signature")
+	if !ok || !rawQueryValueEquals(rawSig, expectedSig) {
+		return fmt.Errorf("signature is not part of the query string")
+	}
+
+	elementToSign := "SAMLRequest=" + rawRequest
+	if rawRelayState, ok := rawQueryValue(rawQuery, "RelayState"); ok {
+		if !rawQueryValueEquals(rawRelayState, relayState) {
+			return fmt.Errorf("relay state is not part of the query string")
+		}
+		elementToSign += "&RelayState=" + rawRelayState
+	} else if relayState != "" {
+		return fmt.Errorf("relay state is not part of the query string")
+	}
+	elementToSign += "&SigAlg=" + rawSigAlg
+
+	signatureValue, err := base64.StdEncoding.DecodeString(expectedSig)
+	if err != nil {
+		return err
+	}
+
+	return signature.ValidateRedirect(sigAlg, []byte(elementToSign), signatureValue, sp.signerPublicKey)
+}
+
+// rawQueryValue returns the still encoded value of the first occurrence of the parameter in the query string
+func rawQueryValue(rawQuery, name string) (string, bool) {
+	for _, param := range strings.Split(rawQuery, "&") {
+		key, value, _ := strings.Cut(param, "=")
+		if key == name {
+			return value, true
+		}
+	}
+	return "", false
+}
+
+func rawQueryValueEquals(rawValue, value string) bool {
+	decoded, err := url.QueryUnescape(rawValue)
+	return err == nil && decoded == value
 }
 
 func (sp *ServiceProvider) ValidateRedirectSignature(request, relayState, sigAlg, expectedSig string) error {
